@@ -73,3 +73,63 @@ class K01b(Harness):
         t = self.describe(values, p)["text"]
         special = sorted(set(c for c in t if len(c.upper()) != 1 or len(c.lower()) != 1 or ord(c.upper()) > 255))
         return "vc:%s:%s:%s" % (",".join(sorted(detail.get("failed", []))), p["case"], "".join("U+%04X" % ord(c) for c in special) or "plain")
+
+
+from vsg.rules import consistent_case_utils as ccu
+from vsg.token_map import process_tokens
+
+
+class _File:
+    def __init__(self, toks):
+        self.lAllObjects = toks
+        self.oTokenMap = process_tokens(toks)
+
+    def get_token_map(self):
+        return self.oTokenMap
+
+
+@register
+class K01c(Harness):
+    name = "K01c"
+    prop = "C01"
+    props = ("C01", "C03")
+    title = "consistent-case rules: a use is rewritten to the declared spelling only if it is the same name up to case (same length, same lower-cased text)"
+    functions = ("vsg.rules.consistent_case_utils", "vsg.vhdlFile.extract.tokens", "vsg.token_map")
+    stubs = ("a two-token file: the declared identifier and one use; the scope dictionaries that the rules build from the classifier output are given directly",)
+    bounds = "declared name and used name = every pair of strings of 1..2 characters each over U+0000..U+00FF except LF/CR"
+    outside = "longer names; the scope computation (get_token_of_interest_dicts)"
+    exception_props = ("C01", "C19")
+
+    def params(self, tier):
+        return [{"n1": a, "n2": b} for a in (1, 2) for b in (1, 2)]
+
+    def run(self, eng, p):
+        d = eng.str("decl", p["n1"])
+        u = eng.str("use", p["n2"])
+        toks = [token.signal_declaration.identifier(d), parser_ws(), token.signal_declaration.identifier(u), parser_cr()]
+        oFile = _File(toks)
+        lToi = ccu.create_tois([{"names": [2], "identifiers": [0]}], oFile)
+        clauses = []
+        for oToi in lToi:
+            exp = oToi.get_meta_data("expected")
+            clauses.append(("rewrite_is_case_only", And(len(exp) == len(u), Eq(core.lift(exp).lower(), core.lift(u).lower()))))
+        if not lToi:
+            clauses.append(("no_rewrite", True))
+        return clauses
+
+    def describe(self, values, p):
+        return {"declared": "".join(chr(values.get("decl[%d]" % i, 32)) for i in range(p["n1"])), "used": "".join(chr(values.get("use[%d]" % i, 32)) for i in range(p["n2"]))}
+
+    signature = staticmethod(_sig)
+
+
+def parser_ws():
+    from vsg import parser
+
+    return parser.whitespace(" ")
+
+
+def parser_cr():
+    from vsg import parser
+
+    return parser.carriage_return()
